@@ -194,4 +194,10 @@ theorem split_same_steps (step : StepFn K) (hfix : IsFixed step) (env : Nat → 
       congr 2
       omega
 
+/-- a concrete simulation on ℚ used by the kernel-evaluated instances in RV/Props/C08.lean:
+    `t = 0`, `dt = 10`, RUNNING, exact_finish_time = 0, empty history -/
+def demoSim : Sim ℚ :=
+  { t := 0, dt := 10, dtLastDone := 0, status := stRUNNING, exactFinish := 0, stepsDone := 0,
+    nOdes := 0, isBS := false, syncs := 0, hist := [] }
+
 end RV.Integrate
